@@ -17,7 +17,7 @@ def subst(f, env):
     return F.rebuild(f, [subst(c, env) for c in F.children(f)])
 
 
-def decompose(rng, f, prefix="p"):
+def decompose(rng, f, prefix="p", prob=0.35, limit=4):
     """Pick random proper sub-formula occurrences of f, name them (inner first).  Returns the list of
     (name, body-with-references) ending with ('out', top)."""
     counter = [0]
@@ -26,7 +26,7 @@ def decompose(rng, f, prefix="p"):
     def go(x, top):
         kids = [go(c, False) for c in F.children(x)]
         y = F.rebuild(x, kids)
-        if not top and x[0] not in ("v", "c") and rng.random() < 0.35 and counter[0] < 4:
+        if not top and x[0] not in ("v", "c") and rng.random() < prob and counter[0] < limit:
             nm = "%s%d" % (prefix, counter[0])
             counter[0] += 1
             defs.append((nm, y))
@@ -62,7 +62,25 @@ def gen_case(rng, allow, monitor, with_consts=True):
         f = g.formula(rng.choice([2, 3, 4, 5]))
         if F.size(f) >= 4:
             break
-    defs = add_repeats(rng, decompose(rng, f))
+    full = rng.random() < 0.25          # every operator node gets a name: the operand of every operator can be read back
+    defs = add_repeats(rng, decompose(rng, f, prob=1.0, limit=8) if full else decompose(rng, f))
+    short = None
+    if rng.random() < 0.3:
+        # a temporal operator applied directly to a named operand (the value of the name must survive whatever the operator
+        # does to its operand's result), often on a trace that is shorter than the operator's bound
+        inner = g.formula(rng.choice([1, 2]))
+        want = ("tb1", "tb2") if rng.random() < 0.6 else ("t1", "tb1", "t2", "tb2")
+        for _ in range(60):
+            w = g.formula(1)
+            if w[0] in want and inner[0] not in ("v", "c"):
+                kids = list(F.children(w))
+                kids[rng.randrange(len(kids))] = ("v", "p0")
+                if len(kids) == 2 and rng.random() < 0.3:
+                    kids = [("v", "p0"), ("v", "p0")]
+                defs = add_repeats(rng, [("p0", inner), ("out", F.rebuild(w, kids))])
+                if w[0] in ("tb1", "tb2"):
+                    short = w[3] + 1
+                break
     if rng.random() < 0.3:
         # an independent assertion that the main one does not reference (its nodes are in no other assertion)
         extra = g.formula(rng.choice([1, 2, 3]))
@@ -78,6 +96,10 @@ def gen_case(rng, allow, monitor, with_consts=True):
             consts.append(("K%d" % i, "float", F.lit(v)))
     style = rng.choice(["text", "text", "sub_spec"])
     n = rng.randint(1, 10)
+    if full and rng.random() < 0.5:
+        n = rng.randint(1, 4)
+    if short is not None and rng.random() < 0.7:
+        n = rng.randint(1, short)
     inl = inline(defs)
     allvars = sorted({v for nm in inl for v in F.variables(inl[nm])})
     # spelling of the interval bounds: plain numbers (default unit) or explicit units (same durations; default unit s, period 1 s)
